@@ -87,6 +87,26 @@ HISTORY = {
                                  "a genuine keyword-rewriting defect of the unchanged parser, fixed in /repo)",
     "C33-sending-end-flag-never-reset": "MISSED at first: the 2-crash runs never reached a second crash (search time "
                                         "used up) -> generous time budget, after-import x2, vacuity guard",
+    "C25-maybe-subtype-helper-strict": "MISSED at first: no union nested in the arguments of a non-union type -> "
+                                       "tuple[U[a|b]] types",
+    "C21-elif-error-after-failed": "MISSED at first: no statement with a failing AND an erroring assertion -> "
+                                   "c21_flaky.Thing (value and shape change between executions)",
+    "C10-goal-abs-tolerance": "MISSED at first: the smallest positive distance of the trace domain was 0.5 -> 5e-17 added",
+    "C27-mangled-owner-underscore": "MISSED at first: no class with an underscore name and a class-private method -> "
+                                    "feature 'protcls'",
+    "C04-str-bytes-text-branch": "caught outright",
+    "C11-analyze-results-shallow-copy": "caught outright",
+    "C08-decorated-scope-range": "caught outright",
+    "C07-stale-covered-snapshot": "caught outright",
+    "C09-control-dependence-cache-by-node": "caught outright",
+    "C23-complex-integral-components": "caught outright",
+    "C16-exception-import-set-order": "MISSED at first: no module with two custom exceptions -> corpus/excs.py in the grid",
+    "C18-private-sut-exception-not-imported": "MISSED at first: no private exception class, and callables beyond the 4 "
+                                              "menu indices were never called -> corpus/excs.py, full index menus up to "
+                                              "12 alternatives in the pipeline populations",
+    "C31-verification-code-cache-by-value": "MISSED at first: no two tests asserting equal values of different types on "
+                                            "the same variable name -> corpus/equalish.py",
+    "C01-kwnames-line-start-skipped": "caught outright (stdlib leg)",
 }
 
 
